@@ -12,7 +12,8 @@ tier = sys.argv[sys.argv.index("--tier") + 1] if "--tier" in sys.argv else "quic
 chk = sys.argv[sys.argv.index("--check") + 1] if "--check" in sys.argv else pid     # the property whose check is run (default: the seed's own)
 name = os.path.basename(src)
 benign = "--benign" in sys.argv      # a change under which the property still holds: the check must stay quiet (exit 0)
-wt = "/tmp/wt/" + pid
+wt = os.environ.get("VERIF_WT_BASE", "/tmp/wt") + "/" + pid
+WORK = "/tmp/audit_work_%s_%d" % (pid, os.getpid())
 def sh(cmd, **kw):
     return subprocess.run(cmd, shell=True, stdout=subprocess.PIPE, stderr=subprocess.STDOUT, text=True, **kw)
 if not os.path.isdir(wt):
@@ -30,7 +31,7 @@ m = re.search(r"(\d+) passed", r.stdout); res["tests_passed_with_change"] = int(
 res["tests_failed_with_change"] = int(re.search(r"(\d+) failed", r.stdout).group(1)) if re.search(r"(\d+) failed", r.stdout) else 0
 r = sh("cd %s && /venv/bin/python %s" % (wt, demo)); res["demo_fails_with_change"] = r.returncode != 0
 res["demo_output_with_change"] = r.stdout[-400:]
-env = dict(os.environ, MINGUS_REPO=wt, VERIF_WORK="/tmp/audit_work_" + pid, VERIF_EVIDENCE_DIR="/tmp/audit_ev", VERIF_REPLAY_DIR="/tmp/audit_ev")
+env = dict(os.environ, MINGUS_REPO=wt, VERIF_WORK=WORK, VERIF_EVIDENCE_DIR="/tmp/audit_ev", VERIF_REPLAY_DIR="/tmp/audit_ev")
 r = sh("cd /verif && ./check %s --tier %s" % (chk, tier), env=env)
 res["check_cmd"] = "MINGUS_REPO=<scratch worktree with patch> ./check %s --tier %s" % (chk, tier)
 res["checked_with"] = chk
@@ -42,7 +43,7 @@ if benign:
     if not res["quiet"]:
         res["check_output_tail"] = r.stdout[-1500:]
 m = re.search(r"rejected clauses: (.*)", r.stdout); res["rejected_clauses"] = json.loads(m.group(1)) if m else {}
-sh("git -C %s checkout -q -- ." % wt); shutil.rmtree("/tmp/audit_work_" + pid, ignore_errors=True)
+sh("git -C %s checkout -q -- ." % wt); shutil.rmtree(WORK, ignore_errors=True)
 ok = res["demo_passes_without_change"] and res["demo_fails_with_change"] and res["tests_passed_with_change"] == 190 and res["tests_failed_with_change"] == 0
 res["confirmed"] = ok
 try:
